@@ -85,10 +85,20 @@ def t_getbytes(kind, L):
         start = ctx.int("start", None, None)
         l = ctx.int("l", 0, None, rnd_hi=L + 2)
         ctx.cover("ret")
+        if kind == "file":
+            # the stream position is an arbitrary point of the file: a random-access read must leave it where it was
+            pos0 = ctx.int("pos", 0, L)
+            s.bin.pos = pos0
         r = ctx.call(type(s)._getbytes, s, start, l)
         expect_bytes(ctx, r, c, base, start, l, "_getbytes")
         r = ctx.call(B.bin_stream.getbytes, s, start, l)
         expect_bytes(ctx, r, c, base, start, l, "getbytes")
+        if kind == "file":
+            ctx.check("frame:file-position", s.bin.pos == pos0)
+            r = ctx.call(B.bin_stream_file.getlen, s)
+            ctx.check("frame:getlen", (not r.raised) and r.value == L - pos0)
+        elif kind in ("str", "container"):
+            ctx.check("frame:offset", s.offset == base)
     return body
 
 
